@@ -380,13 +380,14 @@ pub(crate) struct PathResponses {
 }
 
 impl PathResponses {
-    pub(crate) fn push(&mut self, packet: u64, token: u64, remote: SocketAddr) {
+    pub(crate) fn push(&mut self, packet: u64, token: u64, remote: SocketAddr, packet_len: usize) {
         /// Arbitrary permissive limit to prevent abuse
         const MAX_PATH_RESPONSES: usize = 16;
         let response = PathResponse {
             packet,
             token,
             remote,
+            packet_len,
         };
         let existing = self.pending.iter_mut().find(|x| x.remote == remote);
         if let Some(existing) = existing {
@@ -405,7 +406,9 @@ impl PathResponses {
         }
     }
 
-    pub(crate) fn pop_off_path(&mut self, remote: SocketAddr) -> Option<(u64, SocketAddr)> {
+    /// Returns the token, the address to respond to, and the size of the packet that carried the
+    /// challenge
+    pub(crate) fn pop_off_path(&mut self, remote: SocketAddr) -> Option<(u64, SocketAddr, usize)> {
         let response = *self.pending.last()?;
         if response.remote == remote {
             // We don't bother searching further because we expect that the on-path response will
@@ -413,7 +416,7 @@ impl PathResponses {
             return None;
         }
         self.pending.pop();
-        Some((response.token, response.remote))
+        Some((response.token, response.remote, response.packet_len))
     }
 
     pub(crate) fn pop_on_path(&mut self, remote: SocketAddr) -> Option<u64> {
@@ -439,6 +442,8 @@ struct PathResponse {
     token: u64,
     /// The address the corresponding PATH_CHALLENGE was received from
     remote: SocketAddr,
+    /// Size of the packet the corresponding PATH_CHALLENGE was received in
+    packet_len: usize,
 }
 
 /// Summary statistics of packets that have been sent on a particular path, but which have not yet
